@@ -256,7 +256,7 @@ func c20RestartCheck(c c20RestartCase) *vResult {
 		select {
 		case ev := <-ch:
 			return ev
-		case <-time.After(3 * time.Second):
+		case <-time.After(25 * time.Second):
 			return Events{}
 		}
 	}
